@@ -3,8 +3,8 @@
    Model: Cache/Rcu.v (ProgramCache.Get/Compute as small-step threads over the model of Cache/PCache.v, arbitrary scheduler);
    Gen/Access.v (access classification regenerated from pcache.go / jitdec/pools.go), Gen/CacheConsts.v. *)
 From Coq Require Import NArith List String.
-From SV.Gen Require Import CacheConsts Access.
-From SV.Cache Require Import PCache PCacheInv Rcu RcuProofs C08Thm AccessProofs.
+From SV.Gen Require Import CacheConsts Access PoolUse.
+From SV.Cache Require Import PCache PCacheInv Rcu RcuProofs C08Thm AccessProofs PoolDiscipline.
 Import ListNotations.
 Open Scope N_scope.
 
@@ -69,3 +69,39 @@ Print Assumptions C08_access_exceptions.
 (* the thread programs of Cache/Rcu.v follow exactly this source text (regenerated on every run) *)
 Theorem C08_rcu_source_unchanged : rcu_source = rcu_source_expected.
 Proof. exact rcu_source_thm. Qed.
+
+(* POOL RECYCLING.  The two pools that carry mutable state between API calls: jitdec decoder stacks ("stack", clean-on-put:
+   freeStack resets sp before Put) and native state machines ("fsm", init-on-get: every user initialises before its first read).
+   The event lists of every control-flow path of every user are regenerated from the sources (Gen/PoolUse.v: jitdec/pools.go,
+   jitdec/decoder.go, native/types, utf8, ast, encoder/alg, decoder/api and the C sources of the native routines). *)
+Theorem C08_pool_users_ok : forallb user_ok pool_users = true.
+Proof. exact pool_users_ok_thm. Qed.
+Print Assumptions C08_pool_users_ok.
+
+(* For every interleaving of any number of calls (event by event), whichever pooled object each Get receives and however each
+   use ends (an error inside nested containers may leave ANY state): the run never reaches a violation - no call reads state left
+   behind by another call - and the decoder stack pool only ever holds clean stacks. *)
+Theorem C08_stack_pool_discipline : forall acts,
+  Forall (act_ok (paths_of "stack")) acts ->
+  exists w', wrun true (mkW [] (fun _ => (None, []))) acts = Some w' /\ Forall (fun s => s = Clean) (w_pool w').
+Proof. exact stack_pool_discipline_thm. Qed.
+Print Assumptions C08_stack_pool_discipline.
+
+Theorem C08_fsm_pool_discipline : forall acts,
+  Forall (act_ok (paths_of "fsm")) acts ->
+  exists w', wrun false (mkW [] (fun _ => (None, []))) acts = Some w'.
+Proof. exact fsm_pool_discipline_thm. Qed.
+Print Assumptions C08_fsm_pool_discipline.
+
+(* the theorems are about these users (not an empty list) *)
+Example C08_pool_users_present :
+  map (fun u => (pu_pool u, pu_func u)) pool_users =
+  [ ("stack", "/internal/decoder/jitdec.Decode"); ("fsm", "/ast.Parser.skip"); ("fsm", "/ast.Parser.getByPath");
+    ("fsm", "/internal/decoder/api.Skip"); ("fsm", "/internal/encoder/alg.Valid"); ("fsm", "/utf8.CorrectWith") ]%string.
+Proof. exact pool_users_present. Qed.
+
+(* what breaks the discipline: a Put without the reset (clean-on-put pool), a read before the reset (init-on-get pool) *)
+Example C08_put_without_reset_refuted : path_ok true [PGet; PUse; PPut] = false.
+Proof. exact put_without_reset_refuted. Qed.
+Example C08_use_before_reset_refuted : path_ok false [PGet; PUse; PReset; PPut] = false.
+Proof. exact use_before_reset_refuted. Qed.
